@@ -19,12 +19,14 @@ pub(crate) fn choose_fresh_global_variables(program: &asp::Program) -> Vec<Strin
             max_arity = head_arity;
         }
     }
-    let mut max_taken_var = 0;
+    // Variable names may carry arbitrarily long numbers; a number so large that it cannot be
+    // incremented cannot clash with the names chosen below and is ignored
+    let mut max_taken_var: u128 = 0;
     let taken_vars = program.variables();
     for var in taken_vars {
         if let Some(caps) = RE.captures(&var.0) {
-            let taken: usize = (caps["number"]).parse().unwrap_or(0);
-            if taken > max_taken_var {
+            let taken: u128 = (caps["number"]).parse().unwrap_or(0);
+            if taken > max_taken_var && taken <= u128::MAX - max_arity as u128 {
                 max_taken_var = taken;
             }
         }
@@ -32,7 +34,7 @@ pub(crate) fn choose_fresh_global_variables(program: &asp::Program) -> Vec<Strin
     let mut globals = Vec::<String>::new();
     for i in 1..max_arity + 1 {
         let mut v: String = "V".to_owned();
-        let counter: &str = &(max_taken_var + i).to_string();
+        let counter: &str = &(max_taken_var + i as u128).to_string();
         v.push_str(counter);
         globals.push(v);
     }
